@@ -101,6 +101,11 @@ Proof.
   split; [exact intcompound_cmp_antisym|exact intcompound_cmp_trans].
 Qed.
 Print Assumptions C19_typed_compound_cmp_order.
+(* real-number keys: the node-level comparison never decides on a truncated key text *)
+Theorem C19_prefix_shortcut_real : forall (skey kd : list Z) (kc : Z),
+  sblk_cmp_key_full memcmp realmode skey kd kc = cmp_keys memcmp realmode skey kd kc.
+Proof. exact prefix_shortcut_real. Qed.
+Print Assumptions C19_prefix_shortcut_real.
 (* PARTIAL: the agreement of the model's exact fraction with the long-double sum of the C code (iwafcmp) is compared on
    generated texts only; malformed stored integer keys (longer than 10 bytes) are outside the theorems. *)
 
